@@ -157,6 +157,8 @@ def run_case(case, obs=None):
         return run_subclass(case[1], case[2])
     if kind == "reread":
         return run_reread(case[1], case[2])
+    if kind == "long_designator":
+        return run_long_designator(case[1], case[2])
     if kind == "fixed":
         _, fmt, vals, do_rmw = case
         if fmt == "inquiry_std":
@@ -451,6 +453,28 @@ def run_reread(method, how):
     return []
 
 
+def run_long_designator(n, dtype):
+    """a designator whose size reaches or passes the width of its 8-bit DESIGNATOR LENGTH (254 .. 260 bytes): the page is refused, or
+    it is built with the honest length and parses back to what it was built from"""
+    Inq = c04.lib("Inquiry")
+    des = {"scsi_name_string": bytes([0x41 + (i % 26) for i in range(n)])} if dtype == 8 else {"vendor_specific": bytes([i & 0xFF for i in range(n)])}
+    data = {"peripheral_qualifier": 0, "peripheral_device_type": 0, "page_code": 0x83,
+            "designator_descriptors": [{"piv": 0, "code_set": 3 if dtype == 8 else 1, "protocol_identifier": 0, "association": 0, "designator_type": dtype, "designator": des},
+                                       {"piv": 0, "code_set": 1, "protocol_identifier": 0, "association": 1, "designator_type": 4, "designator": {"relative_port": 7}}]}
+    try:
+        b = bytes(Inq.marshall_datain(data))
+    except Exception:   # noqa: BLE001 - refused
+        return []
+    where = "VPD 83h with a %d-byte designator of type %d" % (n, dtype)
+    if b[7] != n or len(b) != 4 + 4 + n + 8 or int.from_bytes(b[2:4], "big") != len(b) - 4:
+        return [("long_designator/length", "%s: built without complaint; DESIGNATOR LENGTH says %d, PAGE LENGTH %d, %d bytes in all" % (where, b[7], int.from_bytes(b[2:4], "big"), len(b)))]
+    d = Inq.unmarshall_datain(bytearray(b), evpd=1)
+    got = [x.get("designator_type") for x in d.get("designator_descriptors", [])]
+    if got != [dtype, 4]:
+        return [("long_designator/roundtrip", "%s: parses back as designators of types %r" % (where, got))]
+    return []
+
+
 NCHUNK = 3
 
 
@@ -492,6 +516,18 @@ def run_subclass(helper, idxs):
 def run_partition(part, tier, seed):
     acc = Acc(seed)
     if part[0] == "subclass":
+        for n in (250, 254, 255, 256, 257, 260, 511, 512):
+            for dtype in (8, 0):
+                case = ["long_designator", n, dtype]
+                acc.case(case, nontrivial=True, key=repr(case))
+                try:
+                    v = run_long_designator(n, dtype)
+                except Exception:
+                    import traceback
+                    v = [("harness_error", traceback.format_exc()[-600:])]
+                for k, w in v:
+                    acc.violation(k, w, case)
+                acc.outcome((repr(case), tuple(k for k, _ in v)))
         for method in REREAD_METHODS:
             for how in ("again", "next"):
                 case = ["reread", method, how]
